@@ -263,7 +263,7 @@ NOT_COVERED = {
     'C05': ['dependencies (serde_json, url, bitvec, data-encoding, base64-simd, debugid)', 'sourceview.rs, js_identifiers.rs, detector.rs line scan, Display/Debug impls, ram_bundle.rs',
             'flatten (+ off_col / + off_line overflow, design-phase defect D6), rewrite, adjust_mappings, range bitfield writer (D4), decode_hermes', 'allocation in proportion to the input; wall-clock (only termination is proved)'],
     'C08': ['the agreement theorems quantify over index maps whose sections are as the property describes them at every level of nesting (offsets strictly increasing, distinct generated positions inside a section, every moved token before the next offset); other index maps: bounded stand-ins index_flatten / index_nested', 'the hypotheses of the agreement lemma are the postconditions of executed functions; no concrete witness is constructed inside Verus (Vec values cannot be built in spec code), the stand-ins index_flatten / index_nested run the real functions on such inputs'],
-    'C14': ['stability under serialise/decode: both halves are proved over the raw document (SourceMapHermes::as_raw_sourcemap writes x_facebook_sources verbatim, u22; decode_hermes keeps it and reads the function maps from it, u16); that serde carries x_facebook_sources through the JSON text is bounded (hermes_scope)'],
+    'C14': ['stability under serialise/decode: both halves are proved over the raw document (SourceMapHermes::as_raw_sourcemap writes x_facebook_sources verbatim, u22; decode_hermes keeps it and reads the function maps from it, u16) and composed (lemma_hermes_answers_survive_reencoding, u24: two maps whose function maps were read from the same metadata answer alike); that serde carries x_facebook_sources through the JSON text is bounded (hermes_scope)'],
     'C01': ['the serde_json layer (writer and reader of the JSON text, serde attributes): bounded stand-in roundtrip'],
     'C02': ['the composition inside decode_regular is by contract: its loop nest is verified as the outlined function decode_regular__mappings_loop (u4) and called from the verified rest (u10) -- the extracted decode_regular differs from the real one exactly in that call standing for those statements (R-outline-call)', 'termination of the decode_index / decode_common recursion (bounded by serde_json)'],
     'C03': ['the serde skip_serializing_if attributes (that a None field writes no key): bounded stand-in raw_keys'],
